@@ -16,14 +16,20 @@ CHECKS = {
         text="TLC checks the self-financing identity (invariant SelfFinancing in every reachable state, action properties "
              "TradeDelta / QuoteDelta / Neutral on every transition) on Broker.tla exhaustively to a bounded depth; every "
              "distinct (state, last operation) of the model is then replayed with an operation history into a real "
-             "tradingenv Broker+Exchange and the NLV the code reports is compared with the identity after every operation.",
-        design="5 C01", technique="TLA+ spec (Broker.tla/LedgerOps.tla) model-checked with TLC; every model state replayed "
-                                  "into the real Broker (spec-to-code conformance)", note=BROKER_NOTE),
+             "tradingenv Broker+Exchange and the NLV the code reports is compared with the identity after every operation; "
+             "thousands of random longer behaviours from TLC's simulation mode are replayed the same way; in the other "
+             "direction random executions recorded from the real Broker are validated line by line by TLC (BrokerTrace.tla).",
+        design="5 C01", technique="TLA+ spec (Broker.tla/LedgerOps.tla) model-checked with TLC; model states and simulated "
+                                  "behaviours replayed into the real Broker; recorded Broker traces validated by TLC "
+                                  "(BrokerTrace.tla)", note=BROKER_NOTE),
     "C05": dict(
         text="Same exhaustive exploration of Broker.tla with invariants MarginInv and NlvDecomposition; at every observation "
              "point of every replayed history the code's posted margins, the decomposition cash + margins + fully-paid "
-             "liquidation value = reported NLV and the reported weights are compared with the specification.",
-        design="5 C05", technique="TLA+ spec model-checked with TLC; every model state replayed into the real Broker",
+             "liquidation value = reported NLV and the reported weights are compared with the specification; an extra model "
+             "covers the broker's epsilon rule (residual positions dropped); simulated behaviours and TLC-validated recorded "
+             "traces (BrokerTrace.tla, margins at observation points) as for C01.",
+        design="5 C05", technique="TLA+ spec model-checked with TLC; model states and simulated behaviours replayed into the "
+                                  "real Broker; recorded Broker traces validated by TLC (BrokerTrace.tla)",
         note=BROKER_NOTE),
     "C13": dict(
         text="Fault enumeration inside the TLA+ model: quotes losing one or both sides and discontinuations are actions of "
